@@ -26,6 +26,21 @@ def stmt_evaluators(prog):
     return out
 
 
+def always_err(g):
+    """Every value g returns is an `Err(..)` it builds itself (error-wrapping
+    helpers such as `new_loc_err<T>(loc, e) -> Result<T>`)."""
+    if not g.full or not g.locals or not g.locals[0].startswith("std::result::Result<"):
+        return False
+    defs0 = g.defs().get(0, [])
+    if not defs0:
+        return False
+    for (bb, i, kind, payload) in defs0:
+        if kind != "rv" or payload[0] != "agg" or payload[1].get("adt") != "std::result::Result" \
+                or payload[1].get("variant") != "Err":
+            return False
+    return True
+
+
 class EscapeUse:
     """One escape value inside a function: the set of locals it travels
     through (moves), where it is switched on, forwarded, passed or dropped."""
@@ -203,6 +218,8 @@ def outcomes(f, use, start, loop, variant=None):
                 g = f.prog.fns.get(c.res) if not c.is_ptr else None
                 if g is not None and g.is_closure:
                     label = "err"    # new_loc_err-style closure
+                elif g is not None and always_err(g):
+                    label = "err"    # a shared `new_loc_err(loc, e) -> Result<T>` helper
                 else:
                     label = "ret-call"
         if label is not None:
@@ -386,7 +403,8 @@ def rule_R07(ctx):
                     info = f.switch_info(sbb)
                     tgt = dict(info["cases"]).get("None", info["otherwise"])
                     reach = f.reach_from(tgt)
-                    nulls = [c for c in f.calls() if c.bb in reach and (c.res or "").endswith("new_null")]
+                    nulls = [c for c in f.calls() if c.bb in reach and not c.is_ptr
+                             and __import__("anchors").ctor_variants(prog, c.res) == {"Null"}]
                     if nulls:
                         r4.ok()
                     else:
